@@ -198,6 +198,7 @@ let spec_line (toks : string list) : string =
     let fs = kv rest "faults" in
     let faults = if fs = "-" then [] else Stdlib.List.map fault_of (Stdlib.String.split_on_char ',' fs) in
     let o = { o_results = results; o_faults = faults; o_all_ok = (kv rest "allok" = "1");
+              o_input_exhausted = (kv rest "eofseen" <> "0");
               o_decodes = optb (kv rest "dec"); o_same_as_unscripted = optb (kv rest "ref") } in
     (match spec_check o with
      | VOk -> "OK"
@@ -206,6 +207,7 @@ let spec_line (toks : string list) : string =
      | VSwallowed i -> Printf.sprintf "FAIL swallowed %d" (int_of_nat i)
      | VNoReport i -> Printf.sprintf "FAIL noreport %d" (int_of_nat i)
      | VWrongError i -> Printf.sprintf "FAIL wrongerror %d" (int_of_nat i)
+     | VTruncated -> "FAIL truncated -1"
      | VBytesChanged -> "FAIL byteschanged -1"
      | VBadStream -> "FAIL badstream -1")
   | _ -> "BADREQ"
